@@ -763,14 +763,21 @@ pub fn explore(cfg: &L2Cfg, keep_for_progress: usize) -> (Sys, Tables, L2Result)
     let mut depth = 0u32;
     let mut viol: BTreeMap<String, (String, serde_json::Value)> = BTreeMap::new();
     let mut last_level = std::time::Duration::ZERO;
+    let (mut prev_frontier, mut last_growth) = (0usize, 0usize);
     'outer: while !frontier.is_empty() {
         // a level costs about (growth factor) x the previous one: do not start a level that cannot
         // be completed before the deadline (an unfinished level would not count anyway)
-        if std::time::Instant::now() + last_level * 2 > cfg.deadline || res.states >= cfg.max_states || crate::core::rss_bytes() > rss_limit {
+        // memory: a level's transient tables grow with the frontier; do not start a level whose
+        // predicted peak (last level's growth scaled by the frontier growth) exceeds the cap
+        let rss_now = crate::core::rss_bytes();
+        let predicted = if prev_frontier > 0 { (last_growth as f64 * frontier.len() as f64 / prev_frontier as f64) as usize } else { 0 };
+        if std::time::Instant::now() + last_level * 2 > cfg.deadline || res.states >= cfg.max_states || rss_now > rss_limit || rss_now + predicted > rss_limit + (rss_limit >> 2) {
             res.capped = true;
             break 'outer;
         }
         let t_level = std::time::Instant::now();
+        let (rss_level_start, frontier_len) = (rss_now, frontier.len());
+        let mut rss_level_peak = rss_now;
         // the per-pool caches (derivable certificates, action menus) are pure accelerators and are
         // by far the largest tables: drop them when memory gets tight
         if crate::core::rss_bytes() > rss_limit / 3 {
@@ -799,6 +806,7 @@ pub fn explore(cfg: &L2Cfg, keep_for_progress: usize) -> (Sys, Tables, L2Result)
             pools.push(sp);
         }
         let tp1 = std::time::Instant::now();
+        rss_level_peak = rss_level_peak.max(crate::core::rss_bytes());
         // phase 2: run the new local transitions on the real code, in parallel
         let deadline = cfg.deadline;
         let results = crate::core::par_map(needed.len(), |k| {
@@ -863,6 +871,9 @@ pub fn explore(cfg: &L2Cfg, keep_for_progress: usize) -> (Sys, Tables, L2Result)
         }
         if std::env::var("VERIF_DEBUG").is_ok() { eprintln!("   deriv {}ms zmsg {}ms key {}ms", T_DERIV.load(std::sync::atomic::Ordering::Relaxed)/1000, T_ZMSG.load(std::sync::atomic::Ordering::Relaxed)/1000, T_KEY.load(std::sync::atomic::Ordering::Relaxed)/1000); eprintln!("depth {depth}: frontier {} actions {} needed {} | phase1 {:.2}s phase2 {:.2}s phase3 {:.2}s", frontier.len(), level.len(), needed.len(), (tp1-tp0).as_secs_f64(), (tp2-tp1).as_secs_f64(), tp2.elapsed().as_secs_f64()); }
         last_level = t_level.elapsed();
+        rss_level_peak = rss_level_peak.max(crate::core::rss_bytes());
+        prev_frontier = frontier_len;
+        last_growth = rss_level_peak.saturating_sub(rss_level_start);
         depth += 1;
         res.completed_depth = depth;
         res.max_depth = depth;
